@@ -239,7 +239,8 @@ class TTNO(TTNBase):
         indices_up = []
         indices_down = []
         for basis in order:
-            if isinstance(basis, BasisDummy):
+            if basis.nbas == 1:
+                # size-1 axes (dummy or not) are squeezed in `to_contract_args`
                 continue
             indices_up.append(("up", str(basis.dofs)))
             indices_down.append(("down", str(basis.dofs)))
@@ -247,7 +248,8 @@ class TTNO(TTNBase):
         args.append(output_indices)
         res = oe_contract(*asxp_oe_args(args))
         # to be consistent with the behavior of MPS/MPO
-        res = asnumpy(res)
+        # (a Hilbert space of dimension one contracts to a 0-d scalar)
+        res = np.asarray(res) if np.ndim(res) == 0 else asnumpy(res)
         dim = round(np.sqrt(np.prod(res.shape)))
         return res.reshape(dim, dim)
 
@@ -1469,8 +1471,8 @@ class TTNS(TTNBase):
             order = self.basis.basis_list
         indices_up = []
         for basis in order:
-            if isinstance(basis, BasisDummy):
-                # size-1 axes are squeezed in `to_contract_args`, same as `TTNO.todense`
+            if basis.nbas == 1:
+                # size-1 axes (dummy or not) are squeezed in `to_contract_args`, same as `TTNO.todense`
                 continue
             indices_up.append(("down", str(basis.dofs)))
         output_indices = indices_up
